@@ -66,6 +66,11 @@ def run(P, rep, tier):
     from . import c06
 
     rep.attempt(c06.r8_replace_not_rewrite, P, rep, ctx)
+    # the IH5 driver finds its containers by name: a record must not pick up the files of a sibling record
+    # (name-language rule of C03.R3)
+    from . import c03
+
+    rep.attempt(c03.r3_name_language, P, rep, ctx)
     rep.floor("C09.R1", 60, "raw uses")
     rep.floor("C09.R2", 40)
     rep.floor("C09.R3", 3)
